@@ -84,6 +84,17 @@ func (v *Verifier) addSweeps() {
 		}, "unlisted_handler_transparent", defaultHandlerClause))
 		v.coveredPred = nil
 	case "C09", "C10":
+		if v.Prop == "C10" {
+			// whoever hooks the logout event can keep the wipe from being delivered: a
+			// handler that handles the request or fails makes Logout return before it
+			// answers. Default contract: it does neither.
+			v.coveredPred = func(string) bool { return false }
+			v.addEffectSweep("event_handlers_under_contract", v.eventRegSites(map[string][]string{
+				"Before": {"EventLogout"},
+				"After":  {"EventLogout"},
+			}, "logout_not_blocked", `!panics ==> (result.0 == false && result.1 == nil)`))
+			v.coveredPred = nil
+		}
 		// "whitelisted" means whitelisted by the integrator: no library function
 		// writes the session whitelist (nobody is exempt)
 		v.coveredPred = func(string) bool { return false }
